@@ -446,6 +446,9 @@ impl ops::Sub<RealSemiring> for RealSemiring {"""),
          new="""            (Self::Compl(l0), Self::Compl(r0)) | (Self::Reg(l0), Self::Reg(r0)) => std::ptr::eq(*l0, *r0),
             (Self::PtrTrue, Self::PtrTrue) | (Self::PtrFalse, Self::PtrFalse) => true,
             _ => false,"""),
+    dict(name="rn2-false-high-stays-regular", file=B, rule="RN", props=["C02"], expect="RN2:Compl",
+         old="""            if bdd.high.is_neg() || bdd.high.is_false() {""",
+         new="""            if bdd.high.is_neg() {"""),
     dict(name="law-eu-choose-smaller", file="src/util/semirings/expectation.rs", rule="LAW", props=["C13"], expect="ExpectedUtility:choose",
          old="""impl BBSemiring for ExpectedUtility {
     fn choose(&self, arg: &ExpectedUtility) -> ExpectedUtility {
